@@ -899,7 +899,13 @@ def _spread(conds, k):
         v = T.var(n)
         lo = T.const(_default_value(n + str(k)) - 0.05)
         hi = T.const(_default_value(n + str(k)) + 0.05)
-        out.append(T.lor(T.lt(v, T.ZERO), T.land(T.le(lo, v), T.le(v, hi))))
+        # (a generic magnitude of either sign: "any negative value" let the
+        # solver give every variable the same -1, a point where terms that
+        # differ in one identifier coincide)
+        nlo = T.const(-(_default_value(n + str(k)) + 0.05))
+        nhi = T.const(-(_default_value(n + str(k)) - 0.05))
+        out.append(T.lor(T.land(T.le(nlo, v), T.le(v, nhi)),
+                         T.land(T.le(lo, v), T.le(v, hi))))
     return out
 
 
